@@ -109,6 +109,25 @@ def run(ctx: Ctx) -> None:
         for e, o in zip(exprs, obs):
             rcases.append({"id": len(rcases) + 1, "e": e, "ctx": EL.to_value({}), "run": EL.to_value({}), "obs": o})
         groups.append(exprs)
+    # siblings of ONE parent with different overrides (or none) that read the same variable with the same default
+    # through a default argument, the parent reading it too: each call must see its own context
+    for g in range(ctx.pick(40, 400)):
+        ovs = [None if ctx.rng.random() < 0.35 else {"a": {"b": ctx.rng.randint(1, 9)}} for _ in range(ctx.rng.randint(2, 4))]
+        e = EL.call("cfan", EL.V(ovs))
+        rc = {"a": {"b": ctx.rng.randint(1, 9)}} if ctx.rng.random() < 0.5 else {}
+        db = simloop.clone_db(ctx.scratch, f"c05_f{g}.db")
+        bk = simloop.open_backend(db)
+        try:
+            s_, d_ = simloop.make_scheduler(bk, limits={}, chooser=simloop.RandomChooser(ctx.rng, 0.5),
+                                            executors=("default", "process"))
+            o = EL.outcome_of(simloop.run_controlled(s_, d_, EL.build(e), context=rc))
+        finally:
+            simloop.close_backend(bk)
+            try:
+                os.unlink(db)
+            except OSError:
+                pass
+        rcases.append({"id": len(rcases) + 1, "e": e, "ctx": EL.to_value({}), "run": EL.to_value(rc), "obs": o})
     bad = copy.deepcopy(rcases[0])
     bad["id"] = len(rcases) + 1
     bad["obs"] = {"t": "list", "v": [{"t": "int", "v": 777}] * len(bad["e"]["items"])}
